@@ -128,10 +128,10 @@ Proof. induction ds as [|d r IH]; [reflexivity|]. cbn [render_file map render_st
 Lemma stmt_of_good : forall d, xdecl_ok d -> stmt_good (stmt_of d).
 Proof.
   intros [t|e|s|c|v] Hd; cbn [xdecl_ok stmt_of] in *; (split; [|split]); cbn [sm_render sm_w sm_val].
-  - destruct Hd as (_ & _ & _ & _ & _ & _ & _ & Hw). exact Hw.
+  - destruct Hd as (_ & _ & _ & _ & _ & _ & _ & _ & Hw). exact Hw.
   - intros more. unfold decl_follow, render_one, lit_typedef. cbn [app]. split; [unfold ascii; lia | repeat constructor; lia].
   - intros more cr o es fr Hm. exact (statement_typedef t more cr o es fr Hd Hm).
-  - destruct Hd as (_ & _ & _ & _ & _ & _ & _ & _ & Hw). exact Hw.
+  - destruct Hd as (_ & _ & _ & _ & _ & _ & _ & _ & Hw & _). exact Hw.
   - intros more. unfold decl_follow, render_enum, lit_enum. cbn [app]. split; [unfold ascii; lia | repeat constructor; lia].
   - intros more cr o es fr Hm. exact (statement_enum e more cr o es fr Hd Hm).
   - destruct Hd as (_ & (_ & _ & _ & _ & _ & _ & _ & Hw)). exact Hw.
